@@ -138,6 +138,9 @@ def run(ctx):
     voigt_tie(ctx, rd)
     shutil.copy(PROPS / "Prop_C03.v", rd / "Prop_C03.v")
     ctx.prove(rd / "Prop_C03.v", "Prop_C03.v (8 theorems incl. shear_solver_exact)", "theorem-file")
+    # static tie: shear.py is re-translated and proved equal to ShearModel.v on every run (all lemma groups)
+    from props import shear_static
+    shear_static.static_tie(ctx, rd)
 
     import cij.util.voigt as V
     import cij.core.phonon_contribution.shear as S
@@ -145,7 +148,7 @@ def run(ctx):
     importlib.reload(S)
     from cij.util import c_
     rng = ctx.rng
-    nrand = 3 if ctx.tier == "quick" else 120
+    nrand = 3 if ctx.tier == "quick" else 1000
     cases = []
     meta = []
     for key in SHEAR:
